@@ -126,14 +126,19 @@ def dispatch(t1: int, t2: int, nd: int, np: int, meta: int, hits: int) -> str:
     return ""
 
 
-VEXPR = [None, "v", "flag", "name", "nope", "v + 1", "1/0"]
+VEXPR = [None, "v", "flag", "name", "nope", "v + 1", "1/0", "10 ** 400", "bad", "[1]"]
+
+
+class BadFloat:
+    def __float__(self):
+        raise RuntimeError("no float")
 
 
 def value(vk: int, v: int, flag: bool, t1: int) -> str:
     """
     The reported value: the metric's expression evaluated as a number (int local -2..2, bool local), or 1 when there
     is no expression, it is not numeric, or it fails.
-    PRE: 0 <= vk <= 6 and 0 <= t1 <= 3 and -2 <= v <= 2
+    PRE: 0 <= vk <= 9 and 0 <= t1 <= 3 and -2 <= v <= 2
     POST: _ == ""
     """
     world.begin_path()
@@ -141,10 +146,11 @@ def value(vk: int, v: int, flag: bool, t1: int) -> str:
     P = plugins()
     lg = []
     w = World(plugin_list=[P["RecMetricProcessor"](lg)])
-    _install(w, [_pb_metric("m1", TYPES[t1], VEXPR[vk], [], True)])
-    w.event(FakeFrame("/app/f.py", "f", 7, {"name": "bob", "v": v, "flag": flag}), "line", None)
+    # a second definition after it: a value that cannot be converted costs only its own value, not the later metrics
+    _install(w, [_pb_metric("m1", TYPES[t1], VEXPR[vk], [], True), _pb_metric("m2", "GAUGE", "v", [], True)])
+    w.event(FakeFrame("/app/f.py", "f", 7, {"name": "bob", "v": v, "flag": flag, "bad": BadFloat()}), "line", None)
     world.reached()
-    if len(lg) != 1 or lg[0][0] != METHOD[TYPES[t1]]:
+    if len(lg) != 2 or lg[0][0] != METHOD[TYPES[t1]] or lg[1][:2] != ("gauge", "m2") or lg[1][6] != v:
         return "C17:value:call-missing"
     got = lg[0][6]
     if vk == 1:
@@ -248,9 +254,9 @@ CONDITIONS = [
     dict(fn="dispatch", cubes=["t1 == %d and nd == %d and hits == %d" % (a, n, h) for a in range(4) for n in (1, 2) for h in (1, 2)],
          twins=["reach", "mutant:always_counter@t1 == 1 and nd == 1 and hits == 1"],
          bounds="1-2 definitions x 4 types each, 0-2 processors, metadata present/absent, 1-2 hits"),
-    dict(fn="value", cubes=["vk == %d" % k for k in range(7)],
+    dict(fn="value", cubes=["vk == %d" % k for k in range(10)],
          twins=["reach", "mutant:value_const@vk == 5"],
-         bounds="7 value-expression flavours x 4 types; numeric local in -2..2 (symbolic floats compare through IEEE-precise models that enumerate; kept small), bool local"),
+         bounds="10 value-expression flavours (incl. a value too large for float, an object whose __float__ raises, a list) x 4 types; numeric local in -2..2 (symbolic floats compare through IEEE-precise models that enumerate; kept small), bool local"),
     dict(fn="labels", cubes=["l1 == %d" % k for k in range(5)], twins=["reach"],
          bounds="two labels each in {none, static str, expression, failing expression, static int} x 4 types"),
     dict(fn="no_processor", cubes=["fcv == %d" % k for k in range(2)], twins=["reach", "mutant:budget_without_processor@fcv == 0"],
